@@ -50,6 +50,8 @@ class State:
         self.ties = 0
         self.improvements = 0
         self.value_of = {}  # id(program) -> components, to attribute a registration to its script entry
+        self.evaluated = []  # aggregate of every fitness invocation, in order
+        self.presented = 0  # individuals handed to tracker.evaluate
 
     def script(self, i):
         h = self.cfg["history"]
@@ -126,7 +128,8 @@ def gen(H, tier):
             level = H.pick(alphabet)
         hist.append([float(level if j == 0 else H.pick(alphabet)) for j in range(k)])
     return {"multi": multi, "k": k, "minimize": [bool(H.draw(2)) for _ in range(k)], "history": hist,
-            "driver": H.weighted([("direct", 4), ("rs", 2), ("hc", 2), ("opo", 2), ("gp", 3)]),
+            "driver": H.weighted([("direct", 4), ("rs", 2), ("hc", 2), ("opo", 2), ("gp", 3), ("gp_eval", 2)]),
+            "pre_evaluate": [bool(H.draw(4) == 3) for _ in range(12)],
             "pop": 2 + H.draw(7), "hc_n": 1 + H.draw(5), "budget": 1 + H.draw(min(n, 40)),
             "batches": [1 + H.draw(5) for _ in range(8)]}
 
@@ -150,11 +153,13 @@ def run(ctx):
     def ff_single(p):
         v = st.script(st.count)[0]
         st.count += 1
+        st.evaluated.append(st.agg([v]))
         return v
 
     def ff_multi(p):
         v = list(st.script(st.count))
         st.count += 1
+        st.evaluated.append(st.agg(v))
         return v
 
     if cfg["multi"]:
@@ -177,10 +182,26 @@ def run(ctx):
                 bi += 1
                 group = [Individual(i + j, rep) for j in range(min(b, n - i))]
                 i += len(group)
+                if cfg["pre_evaluate"][bi % len(cfg["pre_evaluate"])]:
+                    # user code that evaluates (part of) a batch itself before handing it to the tracker (F12)
+                    tracker.evaluator.evaluate(problem, group[: 1 + len(group) // 2])
+                    ctx.faults["represent"] += 1
+                st.presented += len(group)
                 tracker.evaluate(group)
         else:
-            algo = {"rs": RandomSearch, "hc": HC, "opo": OnePlusOne, "gp": GeneticProgramming}[driver]
+            algo = {"rs": RandomSearch, "hc": HC, "opo": OnePlusOne, "gp": GeneticProgramming, "gp_eval": GeneticProgramming}[driver]
             kw = {}
+            if driver == "gp_eval":
+                # a step that evaluates the offspring itself before the tracker sees them
+                from geneticengine.algorithms.gp.operators.combinators import ParallelStep, SequenceStep
+                from geneticengine.algorithms.gp.operators.elitism import ElitismStep
+                from geneticengine.algorithms.gp.operators.evaluation import EvaluateStep
+                from geneticengine.algorithms.gp.operators.mutation import GenericMutationStep
+                from geneticengine.algorithms.gp.operators.selection import TournamentSelection
+
+                inner = SequenceStep(TournamentSelection(2 + ctx.H.draw(3)), GenericMutationStep(1.0), EvaluateStep())
+                kw["step"] = inner if ctx.H.draw(2) else ParallelStep([ElitismStep(), inner], weights=[1, 4])
+                kw["population_size"] = cfg["pop"]
             if driver == "hc":
                 kw["number_of_mutations"] = cfg["hc_n"]
             if driver == "gp":
@@ -194,6 +215,18 @@ def run(ctx):
         return
     if st.ties + 0 > 0 and st.improvements > 0:
         ctx.nontrivial = True
+    # every individual handed to the tracker is registered, evaluated before or not
+    if driver == "direct" and st.n_reg != st.presented:
+        ctx.violate(f"C12/registrations/{'fewer' if st.n_reg < st.presented else 'more'}-than-presented",
+                    f"{st.presented} individuals were handed to tracker.evaluate but {st.n_reg} were registered")
+    # the reported best is at least as good as EVERY individual evaluated (these drivers hand every evaluated individual to the tracker)
+    if st.evaluated and not cfg["multi"]:
+        b = tracker.get_best_individual()
+        top = max(st.evaluated)
+        if b is not None and st.agg(list(b.get_fitness(problem).fitness_components)) < top:
+            ctx.violate(f"C12/best/single/worse-than-an-evaluated-individual/{driver}",
+                        f"at the end of {driver} the tracker's best has aggregate {st.agg(list(b.get_fitness(problem).fitness_components))} "
+                        f"but an individual with aggregate {top} was evaluated")
     if driver != "direct":
         # search() must return the very individual the tracker reports as best, and it must be the best evaluated
         if cfg["multi"]:
